@@ -40,7 +40,7 @@ def gen_model(rng, tid):
             b = 2 * sum(a[i] for i in range(n) if planted[i]) + rng.choice([0, 0, 0, 1, -1])
         else:
             b = rng.choice([0, 1, 2, 3, 4, 5, 6])  # halves: 0..3 copies
-        w = 10 if symmetric and rng.random() < 0.8 else rng.choice([1, 2, 5, 10, 10, 10, 15, 20])  # tenths
+        w = 10 if symmetric and rng.random() < 0.8 else rng.choice([0, 1, 2, 5, 10, 10, 10, 15, 20])  # tenths; 0 = a term the caller switched off (e.g. cn_pce_penalty=0)
         ub = rng.choice([-1, -1, -1, -1, 4, 6])  # bound on |e| in halves, -1 = free
         eq.append({"a": a, "b": b, "w": w, "ub": ub})
     c = [ccol[colof[i]] for i in range(n)]
@@ -302,7 +302,8 @@ def replay_linearise(ctx):
             ctx.count(1, key=("abs", tuple(c["v"]), tuple(c["c"])))
             ctx.traces += 1
             bad = val is None or abs(val - c["expect"]) > 1e-6
-            bad = bad or any(h is None or abs(h - e) > 1e-6 for h, e in zip(hv, c["helpers"]))
+            # a helper whose coefficient is 0 is not pinned by the objective (Linearise!AbsFreeAtZeroCoeff): only its weight counts
+            bad = bad or any(h is None or abs(h - e) > 1e-6 for h, e, k in zip(hv, c["helpers"], c["c"]) if k > 0)
             if bad:
                 ctx.violation("AbsOK", {"helper": "abssum", "n": len(c["v"])}, c, f"objective={val} helpers={hv}")
     ctx.parts["linearise"] = {"prod_cases": nprod, "abs_cases": nabs, "exhaustive": True}
